@@ -83,10 +83,36 @@ def gen_set(rnd, n):
     return R.RuleFile(variables=list(PREAMBLE), rules=rules)
 
 
-def dominance_pair(rnd):
+def dominance_pair(rnd, basic=False):
     """Two rules that both match everything in the pool that contains the word; exactly one level decides."""
     w = rnd.choice(['UBER', 'NETFLIX', 'COSTCO', 'STAR'])
-    level = rnd.choice(['priority', 'patterns', 'kinds', 'length'])
+    level = rnd.choice(['priority', 'patterns', 'kinds', 'length'] + ([] if basic else ['kinds-vs-long-text', 'patterns-vs-many-kinds', 'length-non-ascii']))
+    if level == 'kinds-vs-long-text':
+        # one more constraint kind outranks ANY amount of pattern text (100, 101, 250 ... characters of it)
+        filler = '|'.join(rnd.choice(WORDS) + rnd.choice(WORDS) for _ in range(rnd.choice([12, 13, 14, 20, 40])))
+        extra = rnd.choice([0, 1])
+        hi = R.Rule('HI', 'contains("%s") and amount > -1e12' % w[:1] + (' and month >= 0' if extra else ''), 'Hi', 'HiSub')
+        lo = R.Rule('LO', 'regex("%s|%s")' % (w, filler) + (' and year >= 0' if extra else ''), 'Lo', 'LoSub')
+        rules = [hi, lo]
+        rnd.shuffle(rules)
+        return R.RuleFile(variables=list(PREAMBLE), rules=rules), level, w
+    if level == 'patterns-vs-many-kinds':
+        hi = R.Rule('HI', 'contains("%s") and contains("%s")' % (w[:1], w[:2]), 'Hi', 'HiSub')
+        lo = R.Rule('LO', 'regex("%s( %s)?") and amount > -1e12 and month >= 0 and year >= 0 and day >= 0 and date == txn.date and source == source '
+                    'and field.memo == field.memo' % (w, 'STORE 42 ' * 12), 'Lo', 'LoSub')
+        rules = [hi, lo]
+        rnd.shuffle(rules)
+        return R.RuleFile(variables=list(PREAMBLE), rules=rules), level, w
+    if level == 'length-non-ascii':
+        # pattern text length is the length of the text as written (letters whose lower/upper-case form has another length included)
+        k = rnd.choice([1, 2, 3])
+        short = '\u0130' * k + ' ' + w                      # k + 1 + len(w) characters
+        longer = w + ' STORE 42 '[:k + 2]                   # len(w) + k + 2 characters: exactly one more
+        hi = R.Rule('HI', 'contains("%s")' % longer, 'Hi', 'HiSub')
+        lo = R.Rule('LO', 'contains("%s")' % short, 'Lo', 'LoSub')
+        rules = [hi, lo]
+        rnd.shuffle(rules)
+        return R.RuleFile(variables=list(PREAMBLE), rules=rules), level + ':' + str(k), w
     if level == 'priority':
         hi = R.Rule('HI', 'contains("%s")' % w[:2], 'Hi', 'HiSub', priority=60)
         lo = R.Rule('LO', 'contains("%s") and contains("%s") and regex("%s") and amount > -1e12 and month >= 0 and year >= 0' % (w, w, w), 'Lo', 'LoSub')
@@ -190,7 +216,12 @@ def judge_dominance(rec, rnd, tmp):
     rf, level, w = dominance_pair(rnd)
     eng = O.load_engine(R.render(rf), 'most_specific')
     txn = world.txn(rnd, desc='%s STORE 42 %s' % (w, w))
+    if level.startswith('length-non-ascii'):
+        txn['description'] = '\u0130' * int(level[-1]) + ' ' + txn['description']
+        level = level[:-2]
     txn['date'] = txn.get('date') or world.DATES[0]
+    if not txn.get('field'):
+        txn['field'] = {'memo': 'm', 'code': 'c'}
     rec.case()
     rec.count('dominance_pairs')
     rec.count('dominance:' + level)
@@ -209,7 +240,7 @@ def judge_rule_mode_setting(rec, tmp, rnd):
     """load_config: rule_mode is validated and handed to the engine; an invalid value falls back to first_match with a warning."""
     from tally.config_loader import load_config
     from tally import merchant_utils as mu
-    rf, level, w = dominance_pair(rnd)
+    rf, level, w = dominance_pair(rnd, basic=True)
     if rf.rules[0].name == 'HI':
         rf.rules.reverse()          # LO first: first_match picks LO, most_specific picks HI
     for mode, expect in (('most_specific', 'Hi'), ('first_match', 'Lo'), ('bogus', 'Lo'), (None, 'Lo')):
